@@ -31,6 +31,11 @@ def _ledger_models(tier, invariants, properties, epsilon_model=False):
         ms.append(model("epsilon", ["S5", "F5"], ["quote", "trade", "value", "markall"], 4 if tier == "quick" else 5,
                         fees="free", bids=(8,), spreads=(0, 2), dqs=(F(1), F(-1), -(1 - e), 1 - e), epsilon=F(1, 1000),
                         invariants=invariants, properties=properties))
+    if epsilon_model:
+        # (C05 family) weights queried as the first valuation after a quote move; quotes that keep only the side needed to
+        # liquidate the position
+        ms.append(model("sf-weights", ["S5", "F5"], ["quote", "half", "trade", "weights", "value"], 4 if tier == "quick" else 5,
+                        fees="paid", bids=(8, 12), spreads=(2,), dqs=(-1, 2), invariants=invariants, properties=properties))
     if tier == "quick":
         ms.append(model("sf-paid", ["S5", "F5"], BASE_OPS + ["lots"], 5, fees="paid", dqs=(-1, 2),
                         lots=[{"S5": 1, "F5": -1}], invariants=invariants, properties=properties))
@@ -157,6 +162,14 @@ def c03(tier, seed):
         ms.append(model("reb-b", ["S2", "G1"], ["quote", "trade", "rebal"], 5, fees="dy", dqs=(-1, 2), reqs=reqs_b, maxrebal=2, **kw))
     for m in ms:
         explore_and_replay(rep, m, clauses_of("C03"))
+    # the same statement one level up: targets arrive as actions of a portfolio space declared in numbers of contracts
+    # (Box and Discrete menus) and must be executed in that measure and reached exactly (Env.tla, replayed into TradingEnv)
+    from . import env_check, props_env
+    n = 4
+    cs = props_env.bar_candidates(n, extras=False)
+    em = env_check.env_model("lots-spaces", env_check.G[:n], cs, range(1, n + 1), 0, [0], [props_env.FOLD_ALL], [(False, -1)],
+                             delays=(0, 1), spaces=("boxlots", "disclots"), maxcalls=n, reset_anywhere=False, trade=True)
+    env_check.run_models(rep, [em], {"allocation", "lots_reached"})
     return rep.finish()
 
 
